@@ -160,6 +160,13 @@ Section IbcRecv.
     (write_ack ok ctx2, ok).
 
   Definition recv_designated (pre : S) : S := write_ack false (tao pre).
+
+  (* the MsgRecvPacket transaction.  A panic below the application callback is not an acknowledgement: nothing on the way
+     recovers from it (M_CacheShape.ok_no_recover — in particular IBCMiddleware.OnRecvPacket does not), the transaction
+     fails and keeps nothing, not even the core's own writes.  `panics` = the callback panics on this packet.
+     class: 1 = success acknowledgement, 2 = error acknowledgement, 3 = transaction failed *)
+  Definition recv_tx (panics : bool) (pre : S) : S * Z :=
+    if panics then (pre, 3) else let (s, ok) := core_recv pre in (s, if ok then 1 else 2).
 End IbcRecv.
 
 (* ------------------------------------------------------------------------------------------ *)
